@@ -108,6 +108,19 @@ func CommentEnd(s string, from int) (int, int) {
 
 // Tokenize runs the tokenizer model from the given start context.
 func Tokenize(s string, ctx int) []Tok {
+	out, _ := tokenizeCore(s, ctx)
+	return out
+}
+
+// EndKey: the model's control state at the moment the input ran out - which state was scanning,
+// the end-tag flag, the pending quote, whether the scan had left offset 0 - i.e. everything the
+// tokenization of a continuation depends on.
+func EndKey(s string, ctx int) string {
+	_, k := tokenizeCore(s, ctx)
+	return k
+}
+
+func tokenizeCore(s string, ctx int) (toks []Tok, endKey string) {
 	var out []Tok
 	n := len(s)
 	pos := 0
@@ -125,10 +138,17 @@ func Tokenize(s string, ctx int) []Tok {
 		state, quote = sValueQuoted, '`'
 	}
 	emit := func(t, off, l int) { out = append(out, Tok{t, off, l}) }
+	cur := state
+	key := func() string {
+		return string([]byte{byte('A' + cur), boolByte(isClose), quote + 1, boolByte(pos > 0)})
+	}
 	for steps := 0; steps < 4*n+16; steps++ {
+		if state != sEOF {
+			cur = state
+		}
 		switch state {
 		case sEOF:
-			return out
+			return out, key()
 
 		case sData:
 			i := firstByte(s, pos, '<')
@@ -136,7 +156,7 @@ func Tokenize(s string, ctx int) []Tok {
 				if n-pos > 0 {
 					emit(DataText, pos, n-pos)
 				}
-				return out
+				return out, key()
 			}
 			if i > pos {
 				emit(DataText, pos, i-pos)
@@ -146,7 +166,7 @@ func Tokenize(s string, ctx int) []Tok {
 
 		case sTagOpen:
 			if pos >= n {
-				return out
+				return out, key()
 			}
 			c := s[pos]
 			switch {
@@ -173,7 +193,7 @@ func Tokenize(s string, ctx int) []Tok {
 
 		case sEndTagOpen:
 			if pos >= n {
-				return out
+				return out, key()
 			}
 			c := s[pos]
 			switch {
@@ -228,7 +248,7 @@ func Tokenize(s string, ctx int) []Tok {
 
 		case sSelfClosing:
 			if pos >= n {
-				return out
+				return out, key()
 			}
 			if s[pos] == '>' {
 				emit(TagNameSelfClose, pos-1, 2)
@@ -243,7 +263,7 @@ func Tokenize(s string, ctx int) []Tok {
 				pos++
 			}
 			if pos >= n {
-				return out
+				return out, key()
 			}
 			switch s[pos] {
 			case '/':
@@ -286,7 +306,7 @@ func Tokenize(s string, ctx int) []Tok {
 				pos++
 			}
 			if pos >= n {
-				return out
+				return out, key()
 			}
 			switch s[pos] {
 			case '/':
@@ -306,7 +326,7 @@ func Tokenize(s string, ctx int) []Tok {
 				pos++
 			}
 			if pos >= n {
-				return out
+				return out, key()
 			}
 			switch s[pos] {
 			case '"', '\'', '`':
@@ -349,7 +369,7 @@ func Tokenize(s string, ctx int) []Tok {
 
 		case sAfterValueQuoted:
 			if pos >= n {
-				return out
+				return out, key()
 			}
 			c := s[pos]
 			switch {
@@ -439,6 +459,13 @@ func Tokenize(s string, ctx int) []Tok {
 		}
 	}
 	panic("refhtml: tokenizer model did not terminate")
+}
+
+func boolByte(b bool) byte {
+	if b {
+		return '1'
+	}
+	return '0'
 }
 
 // Lists are the project's black lists (handed in as data).
@@ -628,6 +655,25 @@ func (l *Lists) IsXSS(s string, ctx int) bool {
 		}
 	}
 	return false
+}
+
+// EndState: the classifier's situation when the input runs out: already fired (absorbing), or the
+// class of the attribute name waiting for its value.
+func (l *Lists) EndState(s string, ctx int) (fired bool, pending int) {
+	attr := AttrNone
+	for _, t := range Tokenize(s, ctx) {
+		text := s[t.Off : t.Off+t.Len]
+		if t.Type != AttrValue {
+			attr = AttrNone
+		}
+		switch t.Type {
+		case AttrName:
+			attr = l.BlackAttr(text)
+		case AttrValue:
+			attr = AttrNone
+		}
+	}
+	return l.IsXSS(s, ctx), attr
 }
 
 // IsXSSAny is the disjunction over the five contexts.
